@@ -148,7 +148,8 @@ def run(prog: Program, rep, tier: str) -> None:
     if N.get("path") in lists and N.get("times") in lists:
         sp, vp = lists[N["path"]]
         st_, vt = lists[N["times"]]
-        ok_init = sp.facts == st_.facts and U(vp).endswith(".z") and "create_transformed_iterate" in U(vp) and const_value(vt) == 0
+        # the time list may also be initialised unconditionally (it is only read when the path is collected)
+        ok_init = all(f in sp.facts for f in st_.facts) and U(vp).endswith(".z") and "create_transformed_iterate" in U(vp) and const_value(vt) == 0
     if appends["path"] or appends["times"]:
         rep.check(ok_init, "path-initialisation", sv.qualname, "path = [initial_iterate.z]; path_times = [0.0]",
                   "the path starts with the transformed start point at model time 0 (both lists initialised together)", sv.loc())
